@@ -126,7 +126,9 @@ CHECKS = {
           "request that fits is accepted completely; one that does not fit blocks without accepting anything when it is atomic "
           "(<= PIPE_BUF) or the pipe is full, and otherwise fills exactly the free room; the pipe never exceeds its capacity; a read "
           "blocks only on an empty pipe that still has a writer, delivers min(request, available) bytes from the front IN ORDER and "
-          "removes exactly those; end of file only without writers; peers are woken exactly when bytes arrive / room is made. One "
+          "removes exactly those; end of file only without writers; peers are woken exactly when bytes arrive / room is made. The "
+          "write(2) loop above the buffer (poll_write_full) advances its running total by exactly what the pipe accepted, completes only "
+          "when everything is transferred and never splits an atomic rest. One "
           "step covers every interleaving of reads and writes on a pipe, for payloads beyond the capacity. Not decided: the stored "
           "order of the bytes accepted by a write (std VecDeque::extend; measured out of memory), the transfer loops above the "
           "buffer, pipeline wiring, command substitution's trailing-newline removal and here-documents (async closures / "
